@@ -93,7 +93,7 @@ func (s *respSym) un(v string) string {
 }
 
 // buildResponse interprets one response spec with the public API
-func (s *respSym) buildResponse(r *gldap.Request, rs rSpec) (gldap.Response, error) {
+func (s *respSym) buildResponse(r *gldap.Request, rs rSpec, w *gldap.ResponseWriter) (gldap.Response, error) {
 	var opts []gldap.Option
 	for _, t := range rs.Opts {
 		switch t.O {
@@ -196,6 +196,9 @@ func (s *respSym) buildResponse(r *gldap.Request, rs rSpec) (gldap.Response, err
 			if ext != nil {
 				ext.SetResponseName(gldap.ExtendedOperationName(s.str[t.S]))
 			}
+		case "write":
+			// the same response object is written now and again later (after further setters)
+			_ = w.Write(resp)
 		default:
 			return nil, fmt.Errorf("unknown setter token %q", t.O)
 		}
@@ -236,7 +239,7 @@ func C04(args []string) error {
 			return
 		}
 		for _, rs := range vecs[i].Resps {
-			resp, err := sym.buildResponse(r, rs)
+			resp, err := sym.buildResponse(r, rs, w)
 			if err != nil {
 				mu.Lock()
 				vecs[i].Err = err.Error()
